@@ -155,6 +155,36 @@ def run(ck):
                 ck.violation(f'regression predictions for targets stored as {ydt} differ from those for the same numbers stored as float32 (max diff '
                              f'{float(np.max(np.abs(pI.astype(np.float64) - outsI[("array", "float32", "flat")].astype(np.float64))))}) on {descI}', dict(descI, rep=[yc, ydt, ysh]),
                              key=json.dumps(dict(site='representation', what='integer regression targets')))
+    # ---- the caller has set torch's process-wide default dtype to float64: arrays and tensors holding the same float32 numbers still give the same predictions
+    drng = np.random.default_rng(ck.seed + 2121)
+    old_default = torch.get_default_dtype()
+    try:
+        torch.set_default_dtype(torch.float64)
+        for j in range(ck.n(2, 6)):
+            taskD = ['reg', 'class'][j % 2]; nD, dD = 80, 3
+            XD = xr.make_X('random', nD, dD, drng); yD = xr.make_y(taskD, XD, drng, n_classes=3); XvD = xr.make_X('random', 30, dD, drng); yvD = xr.make_y(taskD, XvD, drng, n_classes=3)
+            QD = xr.make_X('random', 20, dD, drng)
+            ctorD = dict(rfm_params=xr.default_rfm_params(iters=1, reg=1e-2, bandwidth=3.0), max_leaf_size=[10_000, 30][(j // 2) % 2], verbose=False, use_temperature_tuning=False)
+            descD = dict(kind='default dtype float64', j=j, task=taskD, L=ctorD['max_leaf_size'], seed=ck.seed)
+            outsD = {}
+            for cont in ('tensor', 'array', 'tensor-fit/array-query'):
+                wrapf = (lambda a: torch.tensor(a)) if cont.startswith('tensor') else (lambda a: a.copy())
+                wrapq = (lambda a: torch.tensor(a)) if cont == 'tensor' else (lambda a: a.copy())
+                xr.seed_all(2990 + j + ck.seed)
+                mD = xr.xRFM(**copy.deepcopy(ctorD))
+                try:
+                    with xr.quiet():
+                        mD.fit(wrapf(XD), wrapf(yD), wrapf(XvD), wrapf(yvD)); outsD[cont] = np.asarray(mD.predict(wrapq(QD))).astype(np.float64)
+                except Exception as e:
+                    ck.violation(f'with the default dtype set to float64, {cont} inputs are rejected ({e!r}) on {descD}', dict(descD, container=cont, error=repr(e)),
+                                 key=json.dumps(dict(site='rejected', what='default-dtype'))); continue
+                ck.case(dict(descD, container=cont), nontrivial=True); ck.count('default dtype float64')
+            for cont in ('array', 'tensor-fit/array-query'):
+                if 'tensor' in outsD and cont in outsD and not np.array_equal(outsD['tensor'], outsD[cont]):
+                    ck.violation(f'with the default dtype set to float64, {cont} inputs give other predictions than float32 tensors holding the same numbers (max diff '
+                                 f'{float(np.max(np.abs(outsD["tensor"] - outsD[cont])))}) on {descD}', dict(descD, container=cont), key=json.dumps(dict(site='representation', what='default-dtype')))
+    finally:
+        torch.set_default_dtype(old_default)
     # ---- a label alphabet that fills the integer width it is stored in: 128 classes in int8 (largest label 127 = the largest int8), 256 classes in uint8 — the width
     #      is a storage detail of the caller, the fitted predictions are those of the same labels stored in 64 bits
     for j, (Kw, wdt) in enumerate([(128, 'int8'), (256, 'uint8')]):
